@@ -470,7 +470,7 @@ func mkStr(cells []value) value {
 	copy(cp, cells)
 	for _, c := range cp {
 		switch c.(type) {
-		case uint8, symInt:
+		case uint8, symInt, boxCell:
 		default:
 			unsup("string conversion of non-byte cell %T", c)
 		}
@@ -494,6 +494,23 @@ func (i *interpreter) cmpCells(a, b []value) (lt, eq *smt.Term) {
 		lt, eq = C.False(), C.False()
 	}
 	for j := n - 1; j >= 0; j-- {
+		ba, aBox := a[j].(boxCell)
+		bb, bBox := b[j].(boxCell)
+		if aBox || bBox {
+			// opaque codec tokens: only equality is defined (token == token iff contents equal; token != raw bytes)
+			var e *smt.Term
+			if aBox && bBox {
+				e = i.boxEq(ba, bb)
+			} else {
+				e = C.False()
+			}
+			lt = C.And(e, lt) // ordering against a token is not modelled: callers needing lt get UNSUPPORTED via ltPoison
+			if !e.IsTrue() {
+				i.ltPoison = true
+			}
+			eq = C.And(e, eq)
+			continue
+		}
 		at, bt := i.term(a[j]), i.term(b[j])
 		e := C.Eq(at, bt)
 		l := C.Lt(at, bt)
@@ -503,6 +520,114 @@ func (i *interpreter) cmpCells(a, b []value) (lt, eq *smt.Term) {
 	return
 }
 
+func (i *interpreter) boxEq(a, b boxCell) *smt.Term {
+	if a.kind != b.kind || !types.Identical(a.t, b.t) {
+		return i.m.C.False()
+	}
+	return i.deepEq(a.v, b.v)
+}
+
+// deepEq: structural equality of two values of the same static type, following pointers (codec content equality).
+func (i *interpreter) deepEq(x, y value) *smt.Term {
+	C := i.m.C
+	switch x := x.(type) {
+	case structure:
+		ys, ok := y.(structure)
+		if !ok || len(ys) != len(x) {
+			return C.False()
+		}
+		// big.Int payload
+		if len(x) == 2 {
+			_, xb := x[1].(bigv)
+			_, yb := ys[1].(bigv)
+			if xb || yb {
+				return C.Eq(i.bt(bigOf(x)), i.bt(bigOf(ys)))
+			}
+		}
+		acc := C.True()
+		for j := range x {
+			acc = C.And(acc, i.deepEq(x[j], ys[j]))
+			if acc.IsFalse() {
+				return acc
+			}
+		}
+		return acc
+	case array:
+		ya, ok := y.(array)
+		if !ok || len(ya) != len(x) {
+			return C.False()
+		}
+		acc := C.True()
+		for j := range x {
+			acc = C.And(acc, i.deepEq(x[j], ya[j]))
+		}
+		return acc
+	case []value:
+		ys, ok := y.([]value)
+		if !ok || len(ys) != len(x) {
+			return C.False()
+		}
+		acc := C.True()
+		for j := range x {
+			acc = C.And(acc, i.deepEq(x[j], ys[j]))
+		}
+		return acc
+	case *value:
+		yp, ok := y.(*value)
+		if !ok {
+			return C.False()
+		}
+		if x == nil || yp == nil {
+			return C.BoolConst(x == nil && yp == nil)
+		}
+		return i.deepEq(*x, *yp)
+	case iface:
+		yi, ok := y.(iface)
+		if !ok || !sameType(x.t, yi.t) {
+			return C.False()
+		}
+		if x.t == nil {
+			return C.True()
+		}
+		return i.deepEq(x.v, yi.v)
+	case boxCell:
+		yb, ok := y.(boxCell)
+		if !ok {
+			return C.False()
+		}
+		return i.boxEq(x, yb)
+	case string, symStr:
+		if !isStrish(y) {
+			return C.False()
+		}
+		_, eq := i.cmpCells(strCells(x), strCells(y))
+		return eq
+	case bool, symBool:
+		return C.Iff(i.term(x), i.term(y))
+	case *omap:
+		unsup("deep comparison of maps")
+	}
+	if _, ok := kindOf(x); ok {
+		if _, ok2 := kindOf(y); ok2 {
+			return C.Eq(i.term(x), i.term(y))
+		}
+		return C.False()
+	}
+	switch x.(type) {
+	case float32, float64:
+		return C.BoolConst(x == y)
+	}
+	unsup("deep comparison of %T", x)
+	return nil
+}
+
+func bigOf(st structure) bigv {
+	if b, ok := st[1].(bigv); ok {
+		return b
+	}
+	return bigv{c: new(big.Int)}
+}
+
 func (i *interpreter) strBinop(op token.Token, x, y value) value {
 	C := i.m.C
 	a, b := strCells(x), strCells(y)
@@ -510,12 +635,18 @@ func (i *interpreter) strBinop(op token.Token, x, y value) value {
 	case token.ADD:
 		return mkStr(append(append([]value{}, a...), b...))
 	}
+	i.ltPoison = false
 	lt, eq := i.cmpCells(a, b)
 	switch op {
 	case token.EQL:
 		return i.boolv(eq)
 	case token.NEQ:
 		return i.boolv(C.Not(eq))
+	}
+	if i.ltPoison {
+		unsup("ordering comparison involving an opaque codec token")
+	}
+	switch op {
 	case token.LSS:
 		return i.boolv(lt)
 	case token.LEQ:
